@@ -21,6 +21,10 @@ class ModelError(Exception):
         self.detail = detail
 
 
+class OutOfDomain(Exception):
+    """The case falls into a region the statements leave ambiguous (DESIGN.md §3.3): it is skipped and counted."""
+
+
 class Obj:
     """Model twin of the generated parameter objects Oa / Ob."""
 
@@ -88,21 +92,23 @@ def frozen_value_repr(v):
 
 
 def substitute(v, gv):
-    """One pass, innermost {NAME} with NAME defined -> str(value).  Returns Sub for changed strings."""
+    """One pass, innermost {NAME} (NAME free of braces and line breaks) with NAME defined -> str(value).
+    A string in which the placeholder pattern occurs at all - defined or not - is represented by the Python repr of
+    its original text in storage keys (release 1.4.0 wraps it whenever the pattern matched); that is `Sub`."""
     if gv is None:
         return v
     if isinstance(v, str):
-        out, i, n, changed = [], 0, len(v), False
+        out, i, n, matched = [], 0, len(v), False
         while i < n:
             if v[i] == '{':
                 j = i + 1
-                while j < n and v[j] not in '{}':
+                while j < n and v[j] not in '{}\n':
                     j += 1
                 if j < n and v[j] == '}':
                     name = v[i + 1:j]
+                    matched = True
                     if name in gv:
                         out.append(str(gv[name]))
-                        changed = True
                     else:
                         out.append(v[i:j + 1])
                     i = j + 1
@@ -112,7 +118,7 @@ def substitute(v, gv):
                 continue
             out.append(v[i])
             i += 1
-        return Sub(''.join(out), v) if changed else v
+        return Sub(''.join(out), v) if matched else v
     if isinstance(v, list):
         return [substitute(x, gv) for x in v]
     if isinstance(v, dict):
@@ -386,10 +392,21 @@ def build_tasks(case, cfgdir='<cfgdir>', parameter_mode=True):
             text = build.input_text(program, inp)
             if text is None:
                 text = program['modules'][inp['mod']]['tasks'][inp['task']]['slug']
-            query = text if not t.ns or text.startswith(t.ns + '::') else f'{t.ns}::{text}'
+            if t.ns and text.startswith(t.ns + '::'):
+                # code: already absolute; prose: relative.  Excluded by construction.
+                raise OutOfDomain('declared input name starts with the own namespace')
+            query = text if not t.ns else f'{t.ns}::{text}'
             if query in seen_keys:
                 raise ModelError('duplicate-input', query)
-            found = resolve_input(query, names)
+            try:
+                found = resolve_input(query, names)
+            except ModelError:
+                if inp.get('optional'):
+                    # an ambiguous name for an OPTIONAL input: error or "absent"?  The statements do not say.
+                    raise OutOfDomain('ambiguous optional input')
+                raise
+            if found is not None and inp['form'] == 'class' and found != query:
+                found = None  # a class stands for exactly its own task
             if found is None:
                 if inp.get('optional'):
                     seen_keys.add(query)
@@ -399,7 +416,8 @@ def build_tasks(case, cfgdir='<cfgdir>', parameter_mode=True):
                 raise ModelError('dangling-input', f'{t.fullname} -> {query}')
             key = found if inp['form'] != 'class' else query
             if key in seen_keys:
-                raise ModelError('duplicate-input', key)
+                # a second declaration resolving to an already registered input replaces it silently
+                t.inputs = [i for i in t.inputs if i['key'] != key]
             seen_keys.add(key)
             t.inputs.append({'key': key, 'idx': idx, 'target': found, 'present': True})
     # acyclic
@@ -464,7 +482,8 @@ def compute_key_value(tasks, n, parameter_mode=True):
     ignored = {p['name'] for p in t.spec['params'] if p.get('ignore')}
     pv = {k: canon_param(v) for k, v in t.params.items() if k not in ignored}
     if t.spec['style'] == 'all':
-        iv = sorted(((rel_name(t, i['key']), tasks[i['target']].value) for i in present), key=lambda kv: kv[0])
+        iv = sorted(((i['key'].split('::')[-1], tasks[i['target']].value) for i in present),
+                    key=lambda kv: (kv[0], str(kv[1])))
     else:
         iv = [(i['idx'], tasks[i['target']].value) for i in present]
     t.value = provenance(t.slug, pv, iv)
